@@ -10,8 +10,9 @@
   machine never saw a signal).
 
   What is shown of a note (`Note.OkW K c8`):
-    * a note of C01 / C02 / C03 / C04 / C07 / C10 is ok — except that the two CLEAN-RUN notes
-      (`C03 … clean-all` at the return, `C10 … idle below limit …` at `q`) are only shown under `K`
+    * a note of C01 / C02 / C03 / C04 / C07 / C10 is ok — except that the CLEAN-RUN notes
+      (`C03 … clean-all` at the return, `C10 … idle below limit …` at `q` and its `limit = some 0`
+      form `C10 … limit 0 means unbounded, yet a ready function is unstarted`) are only shown under `K`
       (`K` → whenever `intrAt = none` the start had `s0 = r0 = false`);
     * under `c8` (`FinishCurrent` / `PollNextN(0)` and a carried signal) a C08 note is ok.
 -/
@@ -24,13 +25,16 @@ namespace FG
 /-- the safety / liveness properties whose predicates are independent of the interrupt bookkeeping -/
 def safetyProps : List String := ["C01", "C02", "C03", "C04", "C07", "C10"]
 
-/-- the two notes that presuppose a run in which the interrupt machine never saw a signal:
-    `C03 … clean-all` (a clean run hands out everything) and
-    `C10 … idle below limit l with a ready function unstarted` (a limit is work-conserving) -/
+/-- the notes that presuppose a run in which the interrupt machine never saw a signal:
+    `C03 … clean-all` (a clean run hands out everything),
+    `C10 … idle below limit l with a ready function unstarted` (a limit is work-conserving) and the
+    form of the latter for `limit = some 0` (= unbounded),
+    `C10 … limit 0 means unbounded, yet a ready function is unstarted` -/
 def Note.isCleanNote : Note → Prop
   | .prop p wh _ =>
     (p = "C03" ∧ ∃ w, wh = w ++ " clean-all") ∨
-    (p = "C10" ∧ ∃ (w : String) (l : Nat), wh = w ++ s!" idle below limit {l+1} with a ready function unstarted")
+    (p = "C10" ∧ ∃ (w : String) (l : Nat), wh = w ++ s!" idle below limit {l+1} with a ready function unstarted") ∨
+    (p = "C10" ∧ ∃ w : String, wh = w ++ " limit 0 means unbounded, yet a ready function is unstarted")
   | _ => False
 
 /-- the hypothesis of the C08 part: an interrupting strategy that starts nothing once a signal is
@@ -105,6 +109,8 @@ theorem predFut_invoke_okW (K c8 : Prop) (x : MonCtx) (m : PredSt) (f : Nat)
 
 theorem predFut_q_okW (K c8 : Prop) (x : MonCtx) (m : PredSt)
     (hdead : m.realInflight ≠ [])
+    (h6 : K → m.intrAt = none → m.realFailed = [] → x.c.sequential = false →
+      x.c.limit = some 0 → allBlockedB x.c m.realInvoked m.realEndedOk = true)
     (h10 : K → m.intrAt = none → m.realFailed = [] → x.c.sequential = false →
       ∀ l, x.c.limit = some (l + 1) → m.realInflight.length < l + 1 →
       allBlockedB x.c m.realInvoked m.realEndedOk = true) :
@@ -152,7 +158,18 @@ theorem predFut_q_okW (K c8 : Prop) (x : MonCtx) (m : PredSt)
           | cases hn)
   · rcases hlim : x.c.limit with _ | _ | l
     · simp only [hlim] at hn; cases hn
-    · simp only [hlim] at hn; cases hn
+    · -- `limit = some 0` (unbounded): a clean-run note as well
+      simp only [hlim] at hn
+      split at hn
+      · rename_i hc
+        simp only [Bool.and_eq_true, Option.isNone_iff_eq_none, List.isEmpty_iff,
+          Bool.not_eq_true'] at hc
+        simp only [List.mem_singleton] at hn; subst hn
+        by_cases hK : K
+        · exact Note.okW_of_ok (h6 hK hc.1.1 hc.1.2 hc.2 hlim)
+        · exact ⟨fun _ => Or.inr ⟨Or.inr (Or.inr ⟨rfl, _, rfl⟩), hK⟩,
+            fun _ h => absurd (show "C10" = "C08" from h) (by decide)⟩
+      · cases hn
     · simp only [hlim] at hn
       split at hn
       · rename_i hc
@@ -161,7 +178,7 @@ theorem predFut_q_okW (K c8 : Prop) (x : MonCtx) (m : PredSt)
         simp only [List.mem_singleton] at hn; subst hn
         by_cases hK : K
         · exact Note.okW_of_ok (h10 hK hc.1.1.1 hc.1.1.2 hc.1.2 l hlim hc.2)
-        · exact ⟨fun _ => Or.inr ⟨Or.inr ⟨rfl, _, l, rfl⟩, hK⟩,
+        · exact ⟨fun _ => Or.inr ⟨Or.inr (Or.inl ⟨rfl, _, l, rfl⟩), hK⟩,
             fun _ h => absurd (show "C10" = "C08" from h) (by decide)⟩
       · cases hn
 
@@ -533,7 +550,25 @@ theorem qW_coup (hx : GoodCtx x) (h : CoupW x s0 r0 k0 K m s as) (hq : Quiescent
   refine ⟨?_, ?_⟩
   · rw [predFut_q_fst]
     exact ⟨h.hrun, h.ho, h.inv, h.eok, h.fl, h.ended, h.intrNone, h.clean⟩
-  · apply predFut_q_okW
+  · -- work conservation: the limit is not what keeps the scheduler from polling (below a limit
+    -- `l+1`, or unbounded: `limit = some 0`), clean run: every ready function has been started
+    have hwc : underLimit x.c s = true → (s.im.sent = false ∧ s.im.recv = false) → s.failed = [] →
+        allBlockedB x.c m.realInvoked m.realEndedOk = true := by
+      intro hul hni hf
+      unfold allBlockedB
+      rw [List.all_eq_true]
+      intro v hv
+      rw [List.mem_range] at hv
+      simp only [Bool.or_eq_true, decide_eq_true_eq, List.any_eq_true]
+      by_cases hall : ∀ p ∈ parents x.c.D v, p ∈ s.endedOk
+      · left
+        rw [h.inv]
+        exact (idle_under_limit_all_startedW hx.good hr hq hul hni hf hv hall).2
+      · right
+        simp only [not_forall] at hall
+        obtain ⟨p, hp, hpe⟩ := hall
+        exact ⟨p, hp, by rw [h.eok]; exact hpe⟩
+    apply predFut_q_okW
     · cases hi : s.inflight with
       | nil =>
         have := deadlock_freeW hx.good hr hq hi
@@ -546,27 +581,14 @@ theorem qW_coup (hx : GoodCtx x) (h : CoupW x s0 r0 k0 K m s as) (hq : Quiescent
         intro hn
         rw [hn] at this
         cases this
+    · intro hK hi hf hseq hlim
+      exact hwc (underLimit_unlimited hseq (Or.inr hlim)) (h.noSignal hK hi) (by rw [← h.fl]; exact hf)
     · intro hK hi hf hseq l hlim hlt
-      have hni := h.noSignal hK hi
-      rw [h.fl] at hf
       have hlen : s.inflight.length ≤ m.realInflight.length := by
         apply List.Nodup.length_le_of_subset hinv.inflNodup
         intro f hf'
         exact (h.mem_realInflight hx).mpr ⟨hf', quiescent_invoke_quiet hq hres f hf'⟩
-      unfold allBlockedB
-      rw [List.all_eq_true]
-      intro v hv
-      rw [List.mem_range] at hv
-      simp only [Bool.or_eq_true, decide_eq_true_eq, List.any_eq_true]
-      by_cases hall : ∀ p ∈ parents x.c.D v, p ∈ s.endedOk
-      · left
-        rw [h.inv]
-        exact (idle_under_limit_all_startedW hx.good hr hq (underLimit_of_lt hseq hlim (by omega)) hni hf
-          hv hall).2
-      · right
-        simp only [not_forall] at hall
-        obtain ⟨p, hp, hpe⟩ := hall
-        exact ⟨p, hp, by rw [h.eok]; exact hpe⟩
+      exact hwc (underLimit_of_lt hseq hlim (by omega)) (h.noSignal hK hi) (by rw [← h.fl]; exact hf)
 
 /-- the `ret` step: C04 (nothing in flight at the return), C07 (errors / first error), C03 clean-all -/
 theorem stepW_ret (hx : GoodCtx x) (h : CoupW x s0 r0 k0 K m s as) (hs : step? x.c s .ret = some s1) :
